@@ -53,6 +53,7 @@ class FieldSpec:
     struct: "StructSpec | None"
     pytype: object = None  # declared python leaf type (shipped classes only)
     legacy_string: bool = False  # RequestHeader.client_id
+    nullable_optional: bool = False  # expectations only: the class may or may not be annotated `| None`
 
     def effective_default(self) -> object:
         """Declared default, else the protocol's implicit default for the type."""
@@ -131,6 +132,15 @@ def spec_from_class(cls: type) -> StructSpec:
         version=int(cls.__version__),
     )
     _spec_cache[cls] = spec
+    try:
+        _fill_spec(spec, cls)
+    except BaseException:
+        _spec_cache.pop(cls, None)  # never leave a half-built spec behind
+        raise
+    return spec
+
+
+def _fill_spec(spec: StructSpec, cls: type) -> None:
     for f in dataclasses.fields(cls):
         t, nullable = _strip_optional(f.type)
         array = False
@@ -160,7 +170,6 @@ def spec_from_class(cls: type) -> StructSpec:
         elif f.default_factory is not MISSING:
             raise DescribeError(f"{cls.__name__}.{f.name}: default_factory")
         spec.fields.append(fs)
-    return spec
 
 
 # ---------------------------------------------------------------------------------------
@@ -202,6 +211,8 @@ def _leaf_to_tree(fs: FieldSpec, x: object) -> object:
             raise Inexact(f"{fs.name}: {x!r} is not a bool")
         return x
     if k == "float64":
+        if isinstance(x, int) and not isinstance(x, bool):
+            return float(x)  # equal by value; whether an int inhabits the declared type is C13's business
         if not isinstance(x, float):
             raise Inexact(f"{fs.name}: {x!r} is not a float")
         return x
